@@ -233,6 +233,7 @@ class C06Life(Monitor):
         self.enters = Counter()
         self.lsc_verdicts = {}
         self.gsc_true_by = set()
+        self.active_at_begin = {d.id: bool(d.is_active) for d in self.all_demes(tree)}
         for d in self.all_demes(tree):
             self.known.setdefault(d.id, self.ctx.step - 1)
             self.mc_before[d.id] = d.metaepoch_count
@@ -286,6 +287,9 @@ class C06Life(Monitor):
 
     def on_lsc(self, deme, verdict):
         self.lsc_verdicts.setdefault(deme.id, []).append(verdict)
+        sc = self.ctx.scope
+        if not (sc and sc[-1][0] == "me" and sc[-1][1] == deme.id):
+            self.cov("lsc_consulted_outside_the_deme_s_own_metaepoch")
         d = self.ctx.desc["levels"][deme.level]["lsc"]
         self.cov(f"lsc_verdict.{d['k']}.{verdict}")
         try:
@@ -382,6 +386,8 @@ class C06Life(Monitor):
             # frozen after inactivation
             if not d.is_active:
                 snap = self.inactive.get(d.id)
+                if snap is None and d.id in self.mc_before and self.enters[d.id] == 0 and self.active_at_begin.get(d.id):
+                    self.v(f"a deme became inactive in a metaepoch in which it did not run: {cname}", deme=d.id, hibernating=bool(d._hibernating))
                 if snap is None:
                     self.inactive[d.id] = self._sig(d) + (self.ctx.step,)
                 else:
@@ -408,6 +414,7 @@ class C07Structure(Monitor):
         self.snap = {}
         self.pending = []
         self.round_children = 0
+        self.started = {}
 
     def _check_structure(self, tree, where):
         ctx = self.ctx
@@ -450,7 +457,7 @@ class C07Structure(Monitor):
                     if ps:
                         self.v("root deme has a parent", parent=ps[0].id)
                     if d.started_at != 0:
-                        self.v("root started_at != 0", started_at=d.started_at)
+                        self.v("root started_at != 0", started_at=d.started_at, metaepoch=tree.metaepoch_count)
                 else:
                     if len(ps) != 1:
                         self.v("non-root deme does not have exactly one parent", deme=d.id, parents=[p.id for p in ps])
@@ -461,6 +468,9 @@ class C07Structure(Monitor):
                         if not (p.started_at <= d.started_at):
                             self.v("deme started before its parent", deme=d.id, started_at=d.started_at, parent_started_at=p.started_at)
                         shape.append((li, p.id, eng))
+                    first = self.started.setdefault(d.id, d.started_at)
+                    if first != d.started_at:
+                        self.v("started_at of a deme changed after its creation", deme=d.id, at_creation=first, now=d.started_at)
                     if not (0 <= d.started_at <= tree.metaepoch_count):
                         self.v("started_at outside [0, current metaepoch]", deme=d.id, started_at=d.started_at, metaepoch=tree.metaepoch_count)
                     if d._sprout_seed is None:
@@ -706,6 +716,11 @@ class C09Distance(Monitor):
                     md = cand.features.nbc_mean_distance
                     if md is None or not np.isfinite(md):
                         self.cov("nbc_mean_distance_not_finite")
+                        # read literally: nothing is strictly farther than an undefined threshold, so with a considered deme
+                        # on the target level no seed may be accepted
+                        considered = [sid for sid, (lvl, c, cname) in self.true_c.items() if lvl == tl and (self.active_at[sid] or not only_active)]
+                        if considered and cand.individuals:
+                            self.v("seed accepted by NBC_FarEnough although the threshold (factor x mean nearest-better distance) is undefined (NaN)", parent=parent.id, considered=considered[:4], n_seeds=len(cand.individuals))
                         continue
                     thr = par * md
                 for sid, (lvl, c, cname) in self.true_c.items():
